@@ -12,7 +12,7 @@ G(r) == [i \in 1..Len(r.sol_list) |-> r.sol_list[i] \div UNIT]
 Clauses(r) ==
   IF r.cls = "MinGenSet"
   THEN {"NoCrash"} \cup (IF Solved(r) THEN {"GenSetValid", "TypesAsRequested"} ELSE {})
-  ELSE {"NoCrash", "SolvedIffCoverExists"} \cup (IF Solved(r) THEN {"CoverValid", "CoverMinimumWeight"} ELSE {})
+  ELSE {"NoCrash", "SolvedIffCoverExists"} \cup (IF Solved(r) THEN {"CoverValid", "CoverMinimumWeight", "AsSubsetsIsTheSameAnswer"} ELSE {})
 
 Chosen(r) == {r.sol_list[i] \div UNIT + 1 : i \in 1..Len(r.sol_list)}    \* 0-based indices returned
 Holds(c, r) ==
@@ -28,6 +28,10 @@ Holds(c, r) ==
     [] c = "SolvedIffCoverExists" -> Solved(r) <=> (MinCoverWeight(ToSet(r.universe), r.subsets, r.sweights) # -1)
     [] c = "CoverValid" -> /\ Chosen(r) \subseteq 1..Len(r.subsets)
                            /\ Covers(ToSet(r.universe), r.subsets, Chosen(r))
+    [] c = "AsSubsetsIsTheSameAnswer" ->      \* get_solution(as_subsets=True): the chosen subsets themselves, in the order of the indices
+         /\ "sol_as_subsets" \in DOMAIN r /\ Len(r.sol_as_subsets) = Len(r.sol_list)
+         /\ \A i \in 1..Len(r.sol_list) : r.sol_list[i] \div UNIT + 1 \in 1..Len(r.subsets)
+                                            /\ r.sol_as_subsets[i] = r.subsets[r.sol_list[i] \div UNIT + 1]
     [] c = "CoverMinimumWeight" -> Weight(r.sweights, Chosen(r)) = MinCoverWeight(ToSet(r.universe), r.subsets, r.sweights)
 Fails(r) == {c \in Clauses(r) : ~Holds(c, r)}
 Init == /\ tid \in DOMAIN Recs /\ PrintT(<<"VERDICT", Recs[tid].id, Clauses(Recs[tid]), Fails(Recs[tid])>>)
